@@ -308,6 +308,10 @@ def extra_scenarios(tier, seed):
         out.append({"ops": [{"op": "reuse", "a": 0, "b": 0}, {"op": "target", "a": 1, "b": 1}, {"op": "plug", "a": 0, "b": 0},
                             {"op": "target", "a": 1, "b": 1}, {"op": "reuse", "a": 0, "b": 0}, {"op": "target", "a": 1, "b": 1},
                             {"op": "target", "a": 1, "b": 2}], "force_base": k})
+    # everything re-used, the neighbouring configuration runs FIRST; then the target with re-used and with fresh objects
+    for k in range(n):
+        out.append({"ops": [{"op": "reuse", "a": 0, "b": 0}, {"op": "other", "a": 2, "b": 0}, {"op": "target", "a": 1, "b": 1},
+                            {"op": "reuse", "a": 0, "b": 0}, {"op": "target", "a": 1, "b": 1}, {"op": "target", "a": 1, "b": 2}], "force_base": k})
     # the same run alone, with another optimization running inside it, and alone again
     for k in range(n):
         out.append({"ops": [{"op": "target", "a": 1, "b": 1}, {"op": "nest", "a": 0, "b": 0}, {"op": "target", "a": 1, "b": 1},
